@@ -16,7 +16,7 @@ LEVEL = 'exploration'
 LEVEL_TEXT = ("seeded search over generated (models, evolution) programs executed through the real evolve command in fresh processes, compared table by table with Django's own schema editor output; a clean batch is evidence, not proof")
 TECHNIQUE = ('deterministic simulation: seeded program generation + real-process execution + sqlite3 observation vs fresh-schema reference model')
 PLAN = {
-    'quick': {'count': 400, 'max_wall': 170, 'shrink_budget': 30,
+    'quick': {'count': 1200, 'max_wall': 170, 'shrink_budget': 30,
               'shrink_wall': 120},
     'thorough': {'count': 6000, 'max_wall': 1500, 'shrink_budget': 80,
                  'shrink_wall': 400},
@@ -162,12 +162,27 @@ def execute(scn):
         rebuilt = common.rebuilt_tables(r)
         if rebuilt:
             stats['rebuild_happened'] = 1
+        if r.status != 'ok' and 'UNIQUE constraint failed' in (
+                (r.exit or {}).get('msg') or ''):
+            # the generated rows collide under a uniqueness the evolution
+            # introduces: a data conflict of the scenario, not a verdict
+            stats['data_conflict'] = 1
+            return res
         if r.status != 'ok':
+            any_shadowed = False
+            for st_ in (sts[0], sts[1]):
+                for a_ in st_['apps']:
+                    for m_ in st_['apps'][a_]['models']:
+                        for (cs, u, o) in common.expected_index_origins(
+                                a_, m_):
+                            if common.index_shadowed(a_, m_, list(cs)):
+                                any_shadowed = True
             viols.append(violation(
                 'C01.run_failed', status=r.status,
+                any_shadowed=any_shadowed,
                 exc=(r.exit or {}).get('exc'),
                 msg=(r.exit or {}).get('msg', '')[:300], ops=tags,
-                ops_str=' '.join(tags),
+                ops_str=' '.join(tags), n_ops=len(tags),
                 mode=scn.get('mode'), rebuilt=rebuilt))
             res['nontrivial'] = True
             return res
@@ -180,7 +195,8 @@ def execute(scn):
         fresh, _ = common.fresh_snapshot(P, sts, 1)
         res['runs'] += 1
         apps = sorted(sts[1]['apps'])
-        for d in common.schema_diffs(post, fresh, sts[1], apps):
+        for d in common.schema_diffs(post, fresh, sts[1], apps,
+                                      state_before=sts[0]):
             rule = {'table_missing': 'C01.table_set',
                     'column_missing': 'C01.columns',
                     'column_extra': 'C01.columns',
@@ -196,7 +212,9 @@ def execute(scn):
             viols.append(violation(
                 rule, table=d['table'], kind=d['kind'], what=d['what'],
                 origin=d.get('origin'), shadowed=d.get('shadowed', False),
-                rebuilt=d['table'] in rebuilt,
+                on_check_column=d.get('on_check_column', False),
+                field_kinds=d.get('field_kinds'),
+                rebuilt=d['table'] in rebuilt, n_ops=len(tags),
                 ops=tags, ops_str=' '.join(tags), mode=scn.get('mode')))
         # tables that should be gone
         want = set(common.app_tables(sts[1], apps))
